@@ -182,7 +182,7 @@ def run_history(c):
             outs.append(impl_filter(c["times"], st["values"], g, st["fr"]))
         else:
             outs.append(impl_function_signal(c["times"], st["values"], [(g, st["fr"])]))
-        tols.append(1e-9 * max([abs(v) for v in st["values"]] + [0.0]) * max(1.0, hmax(c["kind"], *c["p"])))
+        tols.append(1e-9 * max([abs(v) for v in st["values"]] + [0.0]) * max(1.0, hmax(c["kind"], *c["p"])) + tol_floor(c["n"]))
     return outs, g.unmodified(), tols
 
 
@@ -214,7 +214,52 @@ def gen_grid(rng, nmax, nmin=2):
     return n, times
 
 
+TINY = 5e-324
+
+
 def gen_values(rng, n):
+    """Sample values with amplitude scales from 1e-15 to 1e15 (field traces of 1e-9 V/m are ordinary here), plus
+    signals entirely below 1e-8, with one sample just above it, exactly zero, very small normal and subnormal."""
+    v = gen_shape(rng, n)
+    u = rng.random()
+    m = max([abs(x) for x in v] + [0.0])
+    if u < 0.45 or m == 0:
+        return v
+    if u < 0.75:
+        s = rng.choice([10.0 ** rng.randint(-15, 15), 2.0 ** rng.randint(-50, 50), 10.0 ** rng.uniform(-15, 15)])
+        return [x * s for x in v]
+    if u < 0.85:                                   # everything below numpy's default absolute tolerance 1e-8
+        s = 10.0 ** rng.uniform(-13, -8) / m
+        return [x * s * 0.999 for x in v]
+    if u < 0.9:                                    # ... except one sample just above it
+        s = 1e-9 / m
+        w = [x * s for x in v]
+        w[rng.randrange(n)] = rng.choice([-1, 1]) * 1.5e-8
+        return w
+    if u < 0.93:
+        return [0.0] * n
+    if u < 0.97:
+        s = 10.0 ** rng.randint(-300, -200) / m
+        return [x * s for x in v]
+    return [float(rng.randint(-2 ** 20, 2 ** 20)) * TINY * 2.0 ** rng.randint(0, 20) for _ in range(n)]   # subnormal
+
+
+def snorm(v):
+    """2-norm without underflow / overflow of the squares (samples range from subnormal to 1e15)."""
+    v = np.asarray(v, dtype=float)
+    m = float(np.max(np.abs(v))) if v.size else 0.0
+    if m == 0.0 or not np.isfinite(m):
+        return m
+    return m * float(np.sqrt(np.sum((v / m) ** 2)))
+
+
+def tol_floor(n):
+    """Absolute floor of the tolerances: subnormal samples carry an absolute error of one subnormal unit per
+    operation in the O(N) sums of either side."""
+    return 64.0 * (2 * n) ** 2 * TINY
+
+
+def gen_shape(rng, n):
     u = rng.random()
     if u < 0.5:
         return [rng.gauss(0, 1) * 10.0 ** rng.choice([-6, 0, 0, 3]) for _ in range(n)]
@@ -278,18 +323,18 @@ def run_impl(c):
     if c["op"] == "filter":
         g = py_response(c["kind"], *c["p"])
         out = impl_filter(c["times"], c["values"], g, c["fr"])
-        return out, 1e-9 * xmax * max(1.0, hmax(c["kind"], *c["p"]))
+        return out, 1e-9 * xmax * max(1.0, hmax(c["kind"], *c["p"])) + tol_floor(c["n"])
     if c["op"] == "apply":
         fl = [(py_response(k, *p), fr) for (k, p, fr) in c["filters"]]
         out = impl_function_signal(c["times"], c["values"], fl)
         h = 1.0
         for (k, p, fr) in c["filters"]:
             h *= max(1.0, hmax(k, *p))
-        return out, 1e-9 * xmax * h
+        return out, 1e-9 * xmax * h + tol_floor(c["n"])
     s = pyrex.Signal(np.array(c["times"]), np.array(c["values"]))
     if c["op"] == "fft":
         sp = np.asarray(s.spectrum)
-        return np.column_stack((sp.real, sp.imag)).ravel(), 1e-9 * xmax * c["n"]
+        return np.column_stack((sp.real, sp.imag)).ravel(), 1e-9 * xmax * c["n"] + tol_floor(c["n"])
     if c["op"] == "freq":
         return np.asarray(s.frequencies, dtype=float), 0.0
     raise ValueError(c["op"])
@@ -451,12 +496,179 @@ def correspondence(ctx, exe, count):
                                    "tolerance": "1e-9 * max|x| * max(1, max|H|) per sample (spectrum: * N; frequencies: exact); histories: every application of one stored response object against the model of the pure response, tables unmodified"}
 
 
+# ----------------------------------------------------------------------------- FunctionSignal buffers
+def pulse(A, c0, w, nu):
+    """A smooth function of absolute time (Python only; the model receives its values on the model's own grid)."""
+    def f(t):
+        t = np.asarray(t, dtype=float)
+        return A * np.exp(-((t - c0) / w) ** 2) * np.cos(2 * np.pi * nu * (t - c0))
+    f.lipschitz = abs(A) * (2.0 / w + 2 * np.pi * abs(nu))
+    return f
+
+
+def gen_buffer(rng, dt, dyadic):
+    u = rng.random()
+    if u < 0.15:
+        return 0.0
+    k = rng.randint(0, 24)
+    if u < 0.35:
+        return k * dt                                        # whole steps
+    if u < 0.8 or dyadic:
+        return (k + rng.choice([0.5, 0.25, 0.75, 0.125])) * dt  # a fraction of a step more
+    return float("%.6g" % ((k + rng.random()) * dt))            # decimal
+
+
+def make_function_signal(times, func, lead, trail, filters, via_with_times):
+    import pyrex
+    t = np.array(times, dtype=float)
+    if via_with_times:
+        # buffers arise from re-gridding a longer signal onto a window inside it
+        dt = t[1] - t[0]
+        start, stop = t[0] - lead, t[-1] + trail
+        nbig = int(round((stop - start) / dt)) + 1
+        big = start + np.arange(nbig) * dt
+        big[-1] = stop
+        fs0 = pyrex.FunctionSignal(big, func)
+        fs = fs0.with_times(t)
+    else:
+        fs = pyrex.FunctionSignal(t, func)
+        fs.set_buffers(leading=lead, trailing=trail)
+    for g, fr in filters:
+        fs.filter_frequencies(g, force_real=bool(fr))
+    return fs
+
+
+def buffer_probe(rng, n, times):
+    """A pure delay (advance) by k samples brings the leading (trailing) buffer into the window: the values must be
+    func(t - k dt) (func(t + k dt)) - the buffer samples have to sit on the continued grid."""
+    dt = float(times[1] - times[0])
+    span = n * dt
+    par = (rng.uniform(0.5, 3) * 10.0 ** rng.randint(-9, 3), times[0] + rng.uniform(-0.2, 1.0) * span, rng.uniform(3, 12) * dt, rng.uniform(0, 0.12) / dt)
+    lead, trail = gen_buffer(rng, dt, False), gen_buffer(rng, dt, False)
+    via = rng.random() < 0.35
+    nb, na = int(lead / dt), int(trail / dt)
+    k = rng.randint(0, nb) if rng.random() < 0.6 else -rng.randint(0, na)
+    return buffer_eval(n, times, {"buffers": [lead, trail], "k": k, "via_with_times": via, "pulse": list(par), "fr_delay": rng.randint(0, 1)})
+
+
+def buffer_eval(n, times, q, verbose=False):
+    t = np.array(times)
+    dt = float(t[1] - t[0])
+    lead, trail = q["buffers"]
+    k, via = q["k"], q["via_with_times"]
+    f = pulse(*q["pulse"])
+    A = q["pulse"][0]
+    g = py_response(1, k * dt, 0.0, 0.0)
+    try:
+        fs = make_function_signal(times, f, lead, trail, [(g, q["fr_delay"])], via)
+        got = np.asarray(fs.values, dtype=float)
+        full = np.asarray(fs._full_times(0), dtype=float)
+    except Exception as e:
+        return ("n=%d:exception" % n, "FunctionSignal with buffers (%r, %r) raised %s: %s" % (lead, trail, type(e).__name__, e), q)
+    want = f(t - k * dt)
+    tmax = float(np.max(np.abs(full))) + abs(k) * dt
+    tol = probe_tol(len(full), float(snorm(f(full))), 1.0) * max(1, abs(k)) + f.lipschitz * 64 * EPS * tmax * (1 + abs(k)) + abs(A) * 1e-12
+    d = float(np.max(np.abs(got - want)))
+    steps = np.diff(full)
+    dstep = float(np.max(np.abs(steps - dt))) if len(steps) else 0.0
+    if verbose:
+        print("buffer-extended grid (first 6):", full[:6], " steps min/max:", (float(np.min(steps)), float(np.max(steps))) if len(steps) else None, " dt:", dt)
+        print("values            :", got[:8])
+        print("func(t - k dt)    :", want[:8])
+        print("max |diff| = %.3g, tolerance %.3g; grid step deviation %.3g" % (d, tol, dstep))
+    if not (d <= tol and dstep <= 64 * EPS * tmax):
+        i = int(np.argmax(np.abs(got - want)))
+        return ("n=%d:buffers" % n,
+                "FunctionSignal with leading/trailing buffers %r/%r s (dt=%r%s) and a pure %s of %d samples: value %d is %.9g, func(t %s %d dt) = %.9g "
+                "(|diff| %.3g > %.3g, amplitude %.3g); buffer grid step deviates from dt by %.3g"
+                % (lead, trail, dt, ", buffers from with_times" if via else "", "delay" if k >= 0 else "advance", abs(k), i, got[i],
+                   "-" if k >= 0 else "+", abs(k), want[i], d, tol, A, dstep), q)
+    return None
+
+
+def buffer_correspondence(ctx, exe, count):
+    """Exactly representable grids (dyadic dt, t0, buffers): the implementation's _full_times grid must EQUAL the model's
+    full_times, and FunctionSignal.values must be the model's function_signal_values of func on that grid."""
+    rng = ctx.rng
+    lim = Limiter(ctx)
+    cases = []
+    for _ in range(count):
+        n = rng.randint(2, 16) if rng.random() < 0.5 else rng.randint(17, 96)
+        dt = rng.randint(1, 7) * 2.0 ** -rng.randint(0, 30)
+        t0 = rng.randint(-4096, 4096) * dt * rng.choice([1, 1, 0.5, 0.25])
+        times = [t0 + i * dt for i in range(n)]
+        lead, trail = gen_buffer(rng, dt, True), gen_buffer(rng, dt, True)
+        fl = []
+        for _ in range(rng.choice([0, 1, 1, 1, 2])):
+            if rng.random() < 0.5:
+                kk = rng.randint(-int(trail / dt), int(lead / dt))
+                fl.append((1, (kk * dt, 0.0, 0.0), rng.randint(0, 1)))
+            else:
+                k2, p1, p2, p3 = gen_response(rng, n, dt)
+                fl.append((k2, (p1, p2, p3), rng.randint(0, 1)))
+        A, c0 = rng.uniform(0.5, 3) * 10.0 ** rng.randint(-9, 3), t0 + rng.uniform(-0.2, 1.0) * n * dt
+        cases.append({"op": "fsbuf", "n": n, "times": times, "lead": lead, "trail": trail, "filters": fl, "via_with_times": rng.random() < 0.3,
+                      "pulse": (A, c0, rng.uniform(3, 12) * dt, rng.uniform(0, 0.12) / dt), "values": [A]})
+    try:
+        grids = dft_extract.run_lines(exe, ["fullgrid %s %s %d %s" % (hexs([c["lead"]]), hexs([c["trail"]]), c["n"], hexs(c["times"])) for c in cases])
+    except Exception as e:
+        ctx.oblige("corr:function-signal-buffers", False, str(e)[-600:])
+        return
+    lines, todo = [], []
+    bad = 0
+    for c, gl in zip(cases, grids):
+        mg = np.array(parse_floats(gl), dtype=float)
+        f = pulse(*c["pulse"])
+        fl = [(py_response(k, *p), fr) for (k, p, fr) in c["filters"]]
+        ctx.case(key=("fsbuf", c["n"], c["lead"], c["trail"], str(c["filters"]), c["times"][0]), nontrivial=(c["lead"] > 0 or c["trail"] > 0),
+                 sample={k: c[k] for k in ("op", "n", "lead", "trail", "filters", "via_with_times")})
+        try:
+            fs = make_function_signal(c["times"], f, c["lead"], c["trail"], fl, c["via_with_times"])
+            ig = np.asarray(fs._full_times(0), dtype=float)
+            iv = np.asarray(fs.values, dtype=float)
+        except Exception as e:
+            bad += 1
+            lim.fail("fsbuf", "corr:fsbuf:n=%d:exception" % c["n"], "FunctionSignal with buffers raised %s: %s; case %s" % (type(e).__name__, e, {k: c[k] for k in ("n", "lead", "trail", "filters")}),
+                     {"kind": "corr", "case": c})
+            continue
+        if ig.shape != mg.shape or not np.array_equal(ig, mg):
+            bad += 1
+            j = int(np.argmax(np.abs(ig - mg))) if ig.shape == mg.shape else -1
+            lim.fail("fsbuf-grid", "corr:fsbuf:n=%d:grid" % c["n"],
+                     "FunctionSignal._full_times differs from the model's buffer grid (lengths %d/%d%s) for buffers %r/%r, dt=%r%s: the buffer samples do not continue the grid with step dt"
+                     % (len(ig), len(mg), "; entry %d: %r vs %r" % (j, ig[j], mg[j]) if j >= 0 else "", c["lead"], c["trail"], c["times"][1] - c["times"][0],
+                        " (buffers from with_times)" if c["via_with_times"] else ""), {"kind": "corr", "case": c})
+            continue
+        fv = f(mg)
+        fls = " ".join("%d %s %d" % (k, hexs(p), fr) for (k, p, fr) in c["filters"])
+        lines.append("fsvalues %s %s %d %s %d %s %d %s" % (hexs([c["lead"]]), hexs([c["trail"]]), len(c["filters"]), fls, c["n"], hexs(c["times"]), len(fv), hexs(fv)))
+        h = 1.0
+        for (k, p, fr) in c["filters"]:
+            h *= max(1.0, hmax(k, *p))
+        todo.append((c, iv, 1e-9 * float(np.max(np.abs(fv))) * h + tol_floor(len(fv))))
+    try:
+        outs = dft_extract.run_lines(exe, lines)
+    except Exception as e:
+        ctx.oblige("corr:function-signal-buffers", False, str(e)[-600:])
+        return
+    for (c, iv, tol), o in zip(todo, outs):
+        mv = np.array(parse_floats(o), dtype=float)
+        d = float(np.max(np.abs(iv - mv))) if iv.shape == mv.shape and len(iv) else (0.0 if iv.shape == mv.shape else float("inf"))
+        if not d <= tol:
+            bad += 1
+            lim.fail("fsbuf-values", "corr:fsbuf:n=%d:values" % c["n"], "FunctionSignal.values with buffers %r/%r and filters %s differ from the model: %.3g > %.3g"
+                     % (c["lead"], c["trail"], [(KIND_NAMES[k], fr) for (k, p, fr) in c["filters"]], d, tol), {"kind": "corr", "case": c})
+    ctx.oblige("corr:function-signal-buffers", bad == 0, "%d of %d buffer cases disagree" % (bad, len(cases)))
+    ctx.extra["buffer_correspondence"] = {"cases": len(cases), "disagreements": bad,
+                                          "compared": "_full_times grid (exact, dyadic data) and FunctionSignal.values against function_signal_values of the model"}
+
+
 # ----------------------------------------------------------------------------- search probes
 def probe_tol(n, xnorm, h):
     # FFT round-off: both transforms are backward stable with relative 2-norm error
     # <= c*eps*log2(M), c ~ 10 (Higham, ASNA 24.2; Bluestein lengths a few times more).
     # 1000*eps*log2(M) is a safe upper bound on the error of one filtering.
-    return 1000 * EPS * math.log2(max(2 * n, 2)) * xnorm * max(1.0, h)
+    return 1000 * EPS * math.log2(max(2 * n, 2)) * xnorm * max(1.0, h) + tol_floor(n) * max(1.0, h)
 
 
 def probes(ctx, count, nmax):
@@ -487,7 +699,8 @@ def probes(ctx, count, nmax):
         g = py_response(k, p1, p2, p3)
         h = hmax(k, p1, p2, p3)
         base = {"n": n, "times": times, "values": x, "values2": y, "resp": [k, p1, p2, p3], "fr": fr}
-        rel = ["linear", "stateful", "homogeneous", "identity", "stateful", "offset", "force_real", "passive", "delay", "function_signal"][it % 10]
+        rel = ["linear", "stateful", "scale", "homogeneous", "buffer", "identity", "stateful", "offset", "scale", "force_real", "passive", "buffer",
+               "delay", "function_signal"][it % 14]
         stats[rel] = stats.get(rel, 0) + 1
         ctx.case(key=("probe", rel, n, k, fr, hexs(x[:6])), nontrivial=True,
                  sample={"probe": rel, "n": n, "dt": dt, "response": KIND_NAMES[k], "force_real": fr} if it < 8 else None)
@@ -496,7 +709,7 @@ def probes(ctx, count, nmax):
                 a, b = rng.uniform(-3, 3), rng.uniform(-3, 3)
                 lhs = impl_filter(times, a * xa + b * ya, g, fr)
                 rhs = a * impl_filter(times, x, g, fr) + b * impl_filter(times, y, g, fr)
-                tol = 3 * probe_tol(n, abs(a) * np.linalg.norm(xa) + abs(b) * np.linalg.norm(ya), h)
+                tol = 3 * probe_tol(n, abs(a) * snorm(xa) + abs(b) * snorm(ya), h)
                 d = float(np.max(np.abs(lhs - rhs)))
                 if not d <= tol:
                     report(rel, "n=%d" % n, "filter(a x + b y) != a filter(x) + b filter(y): max diff %.3g > %.3g (n=%d, %s, force_real=%d)"
@@ -518,7 +731,7 @@ def probes(ctx, count, nmax):
                 fa, fb, fab, f3a, fa2 = F(xa, 0, st), F(ya, 1, st), F(xa + ya, 2, st), F(3.0 * xa, 3, st), F(xa, 4, st)
                 via[5], frs[5] = via[0], frs[0]
                 fa3 = F(xa, 5, st)
-                nx = np.linalg.norm(xa) + np.linalg.norm(ya)
+                nx = snorm(xa) + snorm(ya)
                 tol = 6 * probe_tol(n, nx, hh)
                 checks = [("F(a)+F(b) = F(a+b)", float(np.max(np.abs(fa + fb - fab)))),
                           ("F(3a) = 3F(a)", float(np.max(np.abs(f3a - 3.0 * fa2)))),
@@ -533,6 +746,27 @@ def probes(ctx, count, nmax):
                 if not st.unmodified():
                     report(rel + "-table", "n=%d:table" % n, "filtering modified the caller's stored response table (%s, %s, n=%d, force_real %s)"
                            % (mode, KIND_NAMES[kk], n, frs), hist)
+            elif rel == "scale":
+                # homogeneity in the SIGNAL across amplitude scales: F(c x) = c F(x), c = 1e-12 .. 1e12 (and powers
+                # of two, for which it is exact up to the last bit); tolerance relative to max|c x|
+                via = rng.choice(["signal", "function"])
+                cc = rng.choice([10.0 ** rng.uniform(-12, 12), 10.0 ** rng.randint(-12, 12), 2.0 ** rng.randint(-40, 40), 10.0 ** rng.uniform(-12, -7)])
+                xs = np.array(gen_shape(rng, n))
+                if not np.any(xs):
+                    xs[0] = 1.0
+
+                def F(v):
+                    return impl_filter(times, list(v), g, fr) if via == "signal" else impl_function_signal(times, list(v), [(g, fr)])
+                lhs, rhs = F(cc * xs), cc * F(xs)
+                tol = 6 * probe_tol(n, snorm(cc * xs), h)
+                d = float(np.max(np.abs(lhs - rhs)))
+                if not d <= tol:
+                    report(rel, "n=%d" % n, "filter is not homogeneous in the signal: F(c x) differs from c F(x) by %.3g > %.3g for c=%r, max|c x|=%.3g "
+                           "(n=%d, %s, %s, force_real=%d)" % (d, tol, cc, float(np.max(np.abs(cc * xs))), n, via, KIND_NAMES[k], fr), dict(base, values=list(xs), c=cc, via=via))
+            elif rel == "buffer":
+                res = buffer_probe(rng, n, times)
+                if res:
+                    report(rel, res[0], res[1], dict(base, **res[2]))
             elif rel == "homogeneous":
                 c = rng.uniform(-3, 3)
                 gc = (lambda f, g=g, c=c: c * g(f))
@@ -541,7 +775,7 @@ def probes(ctx, count, nmax):
                 g2 = py_response(6, p1 if k != 5 and p1 > 0 else 0.2 / dt, -0.5, 0.75)
                 add = impl_filter(times, x, (lambda f, g=g, g2=g2: g(f) + g2(f)), fr)
                 rhs2 = impl_filter(times, x, g, fr) + impl_filter(times, x, g2, fr)
-                tol = 3 * probe_tol(n, np.linalg.norm(xa), (abs(c) + 1) * h + 1.0)
+                tol = 3 * probe_tol(n, snorm(xa), (abs(c) + 1) * h + 1.0)
                 d = max(float(np.max(np.abs(lhs - rhs))), float(np.max(np.abs(add - rhs2))))
                 if not d <= tol:
                     report(rel, "n=%d" % n, "filter is not homogeneous/additive in the response: max diff %.3g > %.3g (n=%d, %s, force_real=%d)"
@@ -549,7 +783,7 @@ def probes(ctx, count, nmax):
             elif rel == "identity":
                 unit = rng.choice([lambda f: np.ones(np.shape(f)), lambda f: 1.0 + 0j * float(f), lambda f: np.ones(np.shape(f)) + 0j])
                 out = impl_filter(times, x, unit, fr)
-                tol = probe_tol(n, np.linalg.norm(xa), 1.0)
+                tol = probe_tol(n, snorm(xa), 1.0)
                 d = float(np.max(np.abs(out - xa)))
                 if not d <= tol:
                     report(rel, "n=%d" % n, "unit response changes the signal: max diff %.3g > %.3g (n=%d, force_real=%d)" % (d, tol, n, fr), base)
@@ -579,7 +813,7 @@ def probes(ctx, count, nmax):
                 # symmetrised product is round-off
                 X = np.fft.fft(np.concatenate((xa, np.zeros(n))))
                 z = np.fft.ifft(gsym(np.fft.fftfreq(2 * n, dt)) * X)[:n]
-                tol = 3 * probe_tol(n, np.linalg.norm(xa), h)
+                tol = 3 * probe_tol(n, snorm(xa), h)
                 d = max(float(np.max(np.abs(o1 - o2))), float(np.max(np.abs(z.imag))), float(np.max(np.abs(z.real - o1))))
                 if not d <= tol:
                     report(rel, "n=%d" % n, "force_real result is not the real signal of the Hermitian-symmetrised response: %.3g > %.3g (n=%d, %s)"
@@ -599,7 +833,8 @@ def probes(ctx, count, nmax):
                     q2, q3 = max(-1.0, min(1.0, q2)), max(-1.0, min(1.0, q3))
                 gg = py_response(kk, q1, q2, q3)
                 out = impl_filter(times, x, gg, fr)
-                ein, eout = float(np.sum(xa * xa)), float(np.sum(out * out))
+                mx = float(np.max(np.abs(xa))) or 1.0           # energies relative to max|x|: no underflow of squares
+                ein, eout = float(np.sum((xa / mx) ** 2)), float(np.sum((out / mx) ** 2))
                 if not eout <= ein * (1 + 1e-9) + 1e-300:
                     report(rel, "n=%d" % n, "a response of magnitude <= 1 increased the energy: %.17g -> %.17g (n=%d, %s, force_real=%d)"
                            % (ein, eout, n, KIND_NAMES[kk], fr), dict(base, resp=[kk, q1, q2, q3]))
@@ -608,7 +843,7 @@ def probes(ctx, count, nmax):
                 gg = py_response(1, m * dt, 0.0, 0.0)
                 out = impl_filter(times, x, gg, fr)
                 exp = np.concatenate((np.zeros(m), xa[:n - m]))
-                tol = probe_tol(n, np.linalg.norm(xa), 1.0) * max(1.0, m)  # phase error 2 pi f tau eps grows with m
+                tol = probe_tol(n, snorm(xa), 1.0) * max(1.0, m)  # phase error 2 pi f tau eps grows with m
                 d = float(np.max(np.abs(out - exp)))
                 if not d <= tol:
                     i = int(np.argmax(np.abs(out - exp)))
@@ -617,7 +852,7 @@ def probes(ctx, count, nmax):
             elif rel == "function_signal":
                 o1 = impl_function_signal(times, x, [(g, fr)])
                 o2 = impl_filter(times, x, g, fr)
-                tol = probe_tol(n, np.linalg.norm(xa), h)
+                tol = probe_tol(n, snorm(xa), h)
                 d = float(np.max(np.abs(o1 - o2)))
                 if not d <= tol:
                     report(rel, "n=%d" % n, "FunctionSignal and Signal filter the same samples differently: %.3g > %.3g (n=%d, %s, force_real=%d)"
@@ -655,12 +890,15 @@ def gen_response_of(rng, kind, n, dt):
 
 # ----------------------------------------------------------------------------- entry points
 EXTRACT_REQ = "From PyrexLib Require Import DFT.\nFrom PyrexModel Require Import FilterModel."
-EXTRACT_CMD = 'Extraction "filt.ml" filter_frequencies apply_filters fft_l ifft_l fftfreq delay_response.'
+EXTRACT_CMD = ('Extract Constant Int_part => "(fun x -> int_of_float (floor x))".\n'
+               'Extraction "filt.ml" filter_frequencies apply_filters fft_l ifft_l fftfreq delay_response full_times function_signal_values sig_dt n_buffer.')
 
 
 PINS = [("pyrex/signals.py", "Signal.filter_frequencies"), ("pyrex/signals.py", "Signal._get_filter_response"),
         ("pyrex/signals.py", "FunctionSignal._apply_filters"), ("pyrex/signals.py", "FunctionSignal.filter_frequencies"),
-        ("pyrex/signals.py", "Signal.spectrum"), ("pyrex/signals.py", "Signal.frequencies"), ("pyrex/signals.py", "Signal.dt")]
+        ("pyrex/signals.py", "Signal.spectrum"), ("pyrex/signals.py", "Signal.frequencies"), ("pyrex/signals.py", "Signal.dt"),
+        ("pyrex/signals.py", "FunctionSignal._full_times"), ("pyrex/signals.py", "FunctionSignal._value_window"),
+        ("pyrex/signals.py", "FunctionSignal.values"), ("pyrex/signals.py", "FunctionSignal.set_buffers"), ("pyrex/signals.py", "FunctionSignal.with_times")]
 
 
 def run(ctx):
@@ -686,6 +924,7 @@ def run(ctx):
     repin = bool(dft_extract.pins_changed(ctx, "C05", PINS))
     if exe:
         correspondence(ctx, exe, ctx.n(1000 if repin else 260, 6000))
+        buffer_correspondence(ctx, exe, ctx.n(300 if repin else 80, 1500))
     failed = (not ok) or exe is None or len(ctx.failures) > before or bool(ctx.broken) or repin
     if ctx.thorough or failed:
         probes(ctx, ctx.n(400, 2400), ctx.n(2048, 4096))
@@ -718,6 +957,46 @@ def replay(ctx, obj):
                     rc = 1
         print("stored response table unmodified afterwards:", intact)
         return rc or (0 if intact else 1)
+    if obj.get("kind") == "corr" and obj["case"].get("op") == "fsbuf":
+        c = obj["case"]
+        c["filters"] = [(k, tuple(p), fr) for (k, p, fr) in c["filters"]]
+        f = pulse(*c["pulse"])
+        fl = [(py_response(k, *p), fr) for (k, p, fr) in c["filters"]]
+        print("FunctionSignal, n=%d, dt=%r, buffers %r/%r%s, filters %s" % (c["n"], c["times"][1] - c["times"][0], c["lead"], c["trail"],
+              " (from with_times)" if c["via_with_times"] else "", [(KIND_NAMES[k], p, fr) for (k, p, fr) in c["filters"]]))
+        fs = make_function_signal(c["times"], f, c["lead"], c["trail"], fl, c["via_with_times"])
+        ig, iv = np.asarray(fs._full_times(0), dtype=float), np.asarray(fs.values, dtype=float)
+        ctx.coq_build("C05")
+        exe = dft_extract.build(ctx, "c05", EXTRACT_REQ, EXTRACT_CMD, "filt", "c05_driver.ml")
+        if not exe:
+            return 1
+        mg = np.array(parse_floats(dft_extract.run_lines(exe, ["fullgrid %s %s %d %s" % (hexs([c["lead"]]), hexs([c["trail"]]), c["n"], hexs(c["times"]))])[0]))
+        same = ig.shape == mg.shape and np.array_equal(ig, mg)
+        print("implementation _full_times (%d):" % len(ig), ig[:8], "\nmodel full_times        (%d):" % len(mg), mg[:8], "\n->", "AGREE" if same else "DISAGREE")
+        if not same:
+            return 1
+        fv = f(mg)
+        fls = " ".join("%d %s %d" % (k, hexs(p), fr) for (k, p, fr) in c["filters"])
+        mv = np.array(parse_floats(dft_extract.run_lines(exe, ["fsvalues %s %s %d %s %d %s %d %s" % (hexs([c["lead"]]), hexs([c["trail"]]), len(c["filters"]), fls, c["n"], hexs(c["times"]), len(fv), hexs(fv))])[0]))
+        d = float(np.max(np.abs(iv - mv))) if iv.shape == mv.shape else float("inf")
+        print("implementation values:", iv[:8], "\nmodel values         :", mv[:8], "\nmax diff %.3g" % d)
+        return 0 if d <= 1e-9 * float(np.max(np.abs(fv))) * 16 + tol_floor(len(fv)) else 1
+    if obj.get("kind") == "probe" and obj.get("relation") == "buffer":
+        res = buffer_eval(obj["n"], obj["times"], obj, verbose=True)
+        print("->", "DISAGREE: " + res[1] if res else "AGREE")
+        return 1 if res else 0
+    if obj.get("kind") == "probe" and obj.get("relation") == "scale":
+        k, p1, p2, p3 = obj["resp"]
+        g = py_response(int(k), p1, p2, p3)
+        xs, cc, via, fr = np.array(obj["values"]), obj["c"], obj["via"], obj["fr"]
+        F = (lambda v: impl_filter(obj["times"], list(v), g, fr)) if via == "signal" else (lambda v: impl_function_signal(obj["times"], list(v), [(g, fr)]))
+        lhs, rhs = F(cc * xs), cc * F(xs)
+        print("c = %r, max|c x| = %.3g, response %s, via %s" % (cc, float(np.max(np.abs(cc * xs))), KIND_NAMES[int(k)], via))
+        print("F(c x)  :", lhs[:8], "\nc F(x)  :", rhs[:8], "\nc x     :", (cc * xs)[:8])
+        d = float(np.max(np.abs(lhs - rhs)))
+        tol = 6 * probe_tol(obj["n"], snorm(cc * xs), hmax(int(k), p1, p2, p3))
+        print("max diff %.3g, tolerance %.3g -> %s" % (d, tol, "AGREE" if d <= tol else "DISAGREE"))
+        return 0 if d <= tol else 1
     if obj.get("kind") == "corr":
         c = obj["case"]
         if "p" in c:
@@ -752,7 +1031,7 @@ def replay(ctx, obj):
             st = StoredResponse(int(k), (p1, p2, p3), obj["mode"])
             pure = py_response(int(k), p1, p2, p3)
             via, frs, rc = obj["via"], obj["frs"], 0
-            tol = 6 * probe_tol(n, np.linalg.norm(xa) + np.linalg.norm(np.array(obj["values2"])), hmax(int(k), p1, p2, p3))
+            tol = 6 * probe_tol(n, snorm(xa) + snorm(np.array(obj["values2"])), hmax(int(k), p1, p2, p3))
             seq = [xa, np.array(obj["values2"]), xa + np.array(obj["values2"]), 3.0 * xa, xa, xa]
             for i, v in enumerate(seq):
                 f = (lambda r: impl_filter(times, list(v), r, frs[i]) if via[i] == "signal" else impl_function_signal(times, list(v), [(r, frs[i])]))
@@ -769,11 +1048,11 @@ def replay(ctx, obj):
             print("expected (model theorem delay_no_wraparound):", exp)
             d = float(np.max(np.abs(out - exp)))
             print("max diff", d)
-            return 0 if d <= probe_tol(n, np.linalg.norm(xa), 1.0) * max(1, m) else 1
+            return 0 if d <= probe_tol(n, snorm(xa), 1.0) * max(1, m) else 1
         if rel == "identity":
             out = impl_filter(times, x, lambda f: np.ones(np.shape(f)), fr)
             print("implementation:", out, "\nexpected:", xa)
-            return 0 if float(np.max(np.abs(out - xa))) <= probe_tol(n, np.linalg.norm(xa), 1.0) else 1
+            return 0 if float(np.max(np.abs(out - xa))) <= probe_tol(n, snorm(xa), 1.0) else 1
         if rel == "passive":
             out = impl_filter(times, x, g, fr)
             print("energy in %.17g out %.17g" % (np.sum(xa * xa), np.sum(out * out)))
@@ -783,7 +1062,7 @@ def replay(ctx, obj):
             lhs = impl_filter(times, a * xa + b * ya, g, fr)
             rhs = a * impl_filter(times, x, g, fr) + b * impl_filter(times, list(ya), g, fr)
             print("filter(a x + b y):", lhs, "\na filter(x) + b filter(y):", rhs)
-            return 0 if float(np.max(np.abs(lhs - rhs))) <= 3 * probe_tol(n, abs(a) * np.linalg.norm(xa) + abs(b) * np.linalg.norm(ya), hmax(int(k), p1, p2, p3)) else 1
+            return 0 if float(np.max(np.abs(lhs - rhs))) <= 3 * probe_tol(n, abs(a) * snorm(xa) + abs(b) * snorm(ya), hmax(int(k), p1, p2, p3)) else 1
         if rel == "offset":
             tb = [obj["offset"] + t for t in times]
             o1, o2 = impl_filter(times, x, g, fr), impl_filter(tb, x, g, fr)
@@ -792,7 +1071,7 @@ def replay(ctx, obj):
         if rel == "function_signal":
             o1, o2 = impl_function_signal(times, x, [(g, fr)]), impl_filter(times, x, g, fr)
             print("FunctionSignal:", o1, "\nSignal:", o2)
-            return 0 if float(np.max(np.abs(o1 - o2))) <= probe_tol(n, np.linalg.norm(xa), hmax(int(k), p1, p2, p3)) else 1
+            return 0 if float(np.max(np.abs(o1 - o2))) <= probe_tol(n, snorm(xa), hmax(int(k), p1, p2, p3)) else 1
         if rel == "force_real":
             dt = times[1] - times[0]
             gsym = make_gsym(g, int(k), n, dt)
@@ -800,13 +1079,13 @@ def replay(ctx, obj):
             print("force_real=True:", o1, "\nplain filter with the Hermitian-symmetrised response:", o2)
             d = float(np.max(np.abs(o1 - o2)))
             print("max diff", d)
-            return 0 if d <= 3 * probe_tol(n, np.linalg.norm(xa), hmax(int(k), p1, p2, p3)) else 1
+            return 0 if d <= 3 * probe_tol(n, snorm(xa), hmax(int(k), p1, p2, p3)) else 1
         if rel == "homogeneous":
             c = obj["c"]
             lhs = impl_filter(times, x, (lambda f: c * g(f)), fr)
             rhs = c * impl_filter(times, x, g, fr)
             print("filter(x, c H):", lhs, "\nc filter(x, H):", rhs)
-            return 0 if float(np.max(np.abs(lhs - rhs))) <= 3 * probe_tol(n, np.linalg.norm(xa), (abs(c) + 1) * hmax(int(k), p1, p2, p3) + 1) else 1
+            return 0 if float(np.max(np.abs(lhs - rhs))) <= 3 * probe_tol(n, snorm(xa), (abs(c) + 1) * hmax(int(k), p1, p2, p3) + 1) else 1
         out = impl_filter(times, x, g, fr)
         print("implementation output:", out)
         return 1
